@@ -17,9 +17,11 @@ impl Address {
     pub(crate) async fn resolve(&self) -> std::io::Result<std::net::SocketAddr> {
         let address = self.to_owned();
 
+        // The blocking task is only ever cancelled when the runtime is being torn down; report
+        // that as a failed resolution instead of panicking.
         tokio::task::spawn_blocking(move || address.resolve_blocking())
             .await
-            .unwrap()
+            .unwrap_or_else(|e| Err(std::io::Error::new(std::io::ErrorKind::Other, e)))
     }
 
     fn resolve_blocking(&self) -> std::io::Result<std::net::SocketAddr> {
